@@ -293,7 +293,7 @@ func (g *generator) walkRef(schema *schemaparser.Schema) (ast.Type, error) {
 }
 
 func (g *generator) walkString(schema *schemaparser.Schema) (ast.Type, error) {
-	def := ast.String(ast.Default(schema.Default))
+	def := ast.String(ast.Default(unwrapJSONNumbers(schema.Default)))
 
 	if schema.Constant != nil {
 		def.Scalar.Value = schema.Constant[0]
@@ -331,7 +331,7 @@ func (g *generator) walkString(schema *schemaparser.Schema) (ast.Type, error) {
 }
 
 func (g *generator) walkBool(schema *schemaparser.Schema) (ast.Type, error) {
-	def := ast.Bool(ast.Default(schema.Default))
+	def := ast.Bool(ast.Default(unwrapJSONNumbers(schema.Default)))
 
 	if schema.Constant != nil {
 		def.Scalar.Value = schema.Constant[0]
@@ -346,7 +346,7 @@ func (g *generator) walkNumber(schema *schemaparser.Schema) (ast.Type, error) {
 		scalarKind = ast.KindFloat64
 	}
 
-	def := ast.NewScalar(scalarKind, ast.Default(schema.Default))
+	def := ast.NewScalar(scalarKind, ast.Default(unwrapJSONNumbers(schema.Default)))
 
 	if schema.Constant != nil {
 		def.Scalar.Value = unwrapJSONNumber(schema.Constant[0])
@@ -405,7 +405,7 @@ func (g *generator) walkList(schema *schemaparser.Schema) (ast.Type, error) {
 		return ast.Type{}, err
 	}
 
-	return ast.NewArray(itemsDef, ast.Default(schema.Default)), nil
+	return ast.NewArray(itemsDef, ast.Default(unwrapJSONNumbers(schema.Default))), nil
 }
 
 func (g *generator) walkEnum(schema *schemaparser.Schema) (ast.Type, error) {
